@@ -515,19 +515,19 @@ func evalBatch(sb *syncBin, oracle string, cases []*syncCase) ([]*prepared, []sy
 		// leaves exactly the logs of the canonical chain (recomputed here from the real receipts)
 		if p.c.Sync.Canon >= 0 {
 			ge, gt := showEvents(r.Events), showTransfers(r.Transfers)
+			how := ""
+			if r.SyncErr {
+				how = fmt.Sprintf(" (syncLogDB(verify=%v) returned an error)", p.c.Sync.Verify)
+			}
 			switch {
-			case r.SyncErr:
-				v.propClass = "synclog-resync-fails-on-canonical-tables"
-				v.propMsg = fmt.Sprintf("syncLogDB(verify=%v) returned an error on a log db holding exactly the logs of the chain of a stored block (%s); the index is not re-established",
-					p.c.Sync.Verify, p.c.Sync.Kind)
 			case ge != p.wantEv:
 				v.propClass = "synclog-tables-not-canonical-after-resync"
-				v.propMsg = fmt.Sprintf("after syncLogDB the event table differs from the logs of the canonical chain (%s, best at height %d, seek position %d): have %d rows, the chain's receipts prescribe %d",
-					p.c.Sync.Kind, p.bestNum, r.SeekPos, len(r.Events), strings.Count(p.wantEv, "|")+b2i(len(p.wantEv) > 3))
+				v.propMsg = fmt.Sprintf("after syncLogDB%s the event table differs from the logs of the canonical chain (pre-state %s: the tables of a stored block; best at height %d, seek position %d): have %d rows, the chain's receipts prescribe %d",
+					how, p.c.Sync.Kind, p.bestNum, r.SeekPos, len(r.Events), strings.Count(p.wantEv, "|")+b2i(len(p.wantEv) > 3))
 			case gt != p.wantTr:
 				v.propClass = "synclog-tables-not-canonical-after-resync"
-				v.propMsg = fmt.Sprintf("after syncLogDB the transfer table differs from the logs of the canonical chain (%s, best at height %d, seek position %d): have %d rows, the chain's receipts prescribe %d",
-					p.c.Sync.Kind, p.bestNum, r.SeekPos, len(r.Transfers), strings.Count(p.wantTr, "|")+b2i(len(p.wantTr) > 3))
+				v.propMsg = fmt.Sprintf("after syncLogDB%s the transfer table differs from the logs of the canonical chain (pre-state %s: the tables of a stored block; best at height %d, seek position %d): have %d rows, the chain's receipts prescribe %d",
+					how, p.c.Sync.Kind, p.bestNum, r.SeekPos, len(r.Transfers), strings.Count(p.wantTr, "|")+b2i(len(p.wantTr) > 3))
 			}
 		}
 		want := p.answers(r)
